@@ -11,8 +11,9 @@ Cfg == [nt |-> 4, It |-> 8, n |-> 2, I |-> 4]
 
 R(id, num, den, iv) == [id |-> id, res |-> "r1", thr |-> <<num, den>>, I |-> iv]
 \* intervals: 0 default, 2 one global bucket, 8 whole array, 3 private single bucket,
-\* 6 private three buckets, 16 private longer than the global array
-Singles == { <<R("f1", num, den, iv)>> : num \in {0, 2, 3}, den \in {1, 2}, iv \in {0, 2, 8, 3, 6, 16} }
+\* 6 private three buckets, 16 private longer than the global array, 5 and 7 private single buckets whose
+\* length lies between the global bucket length and the global interval without being a multiple of it
+Singles == { <<R("f1", num, den, iv)>> : num \in {0, 2, 3}, den \in {1, 2}, iv \in {0, 2, 8, 3, 6, 16, 5, 7} }
 Pairs   == { <<R("f1", 3, 2, 0), R("f2", 2, 1, 8)>>, <<R("f1", 2, 1, 3), R("f2", 3, 1, 6)>>,
              <<R("f1", 1, 1, 2), R("f2", 3, 1, 16)>>, <<R("f1", 2, 1, 0), R("f2", 2, 1, 0)>>,
              <<R("f1", 3, 1, 8), R("f2", 1, 1, 3), R("f3", 2, 1, 6)>> }
